@@ -118,6 +118,18 @@ CHECKS = {
             "pool of 14 int and 7 float kernels, histories exhaustive to length 2, sampled (VERIF_SEED) to 3/4/5; kernels use both "
             "data inputs (decode's documented precondition).",
             "concrete merge/decode through the real API + symbolic evaluation of the merged PE + z3 equivalence (QF_BV/EUF)", "3/C20"),
+    "C08": (OT,
+            "For enumerated streamer configurations a snax_stream.streaming_region whose stride-pattern entries are symbolic int "
+            "proxies (bit-vector backed) is handed to the real convert_to_acc_ops of snax_alu / snax_xdma; the emitted "
+            "value-computing ops are evaluated by the symbolic IR interpreter (one z3 term per accfg.setup operand, names from "
+            "SetupOp.iter_params) and z3 proves per field NAME that the term equals the specification for all pattern values, "
+            "that the setup lists exactly the declared fields in order, and that loop counts equal the number of stream steps. "
+            "snax_gemmx is driven through the real scheduler/layout/stream pipeline on enumerated shapes with symbolic zero "
+            "points (bit-vector packing identities, K*M / M / loop-bound relations). snax_hwpe_mult checked by name.",
+            "configurations sampled by VERIF_SEED with a fork budget; pattern entries in [0,2^31); gemmx stride patterns concrete; "
+            "four known findings (alu loop count for multi-dim patterns, xdma enabled_chan field/value mismatch, hwpe names) listed; "
+            "snax_phs switch values are covered functionally by C20.",
+            "symbolic execution of the real Python + symbolic IR interpreter + z3 (QF_BV) per field name", "3/C08"),
 }
 
 NOT_YET = "check not built yet (work in progress in this round); no claim is made"
